@@ -217,3 +217,277 @@ Example compose_hypotheses_satisfiable :
   (forall pre t a b, ex_entitled pre t a -> ex_entitled pre t b -> a = b) /\
   (forall pre t t' a b, ex_entitled pre t a -> ex_entitled pre t' b -> a <> b -> t < t' -> t + 1 <= t').
 Proof. exact compose_example. Qed.
+
+(* ========================================================================================== *)
+(* THE COMPOSED N-STATION MODEL (Model/Multi.v, Proofs/MultiProofs.v).
+   `multi_run A ops M s0 sc`: N copies of the single-station model Fdl.poll (any N, each with its own
+   parameters and any number of applications `ops`), on a shared medium M, driven by a schedule sc (list of
+   (station index, set_online | set_offline | poll at time now)).  M is an ARBITRARY function
+   history -> station index -> time -> (new receive bytes, transmitter busy): every theorem below is
+   universally quantified over it - a medium that loses, corrupts, delays, duplicates or invents bytes
+   included; `medium_bytes M` only says that what it delivers are octets.  `multi_init cfg` creates the
+   stations (FdlActiveStation::new) from cfg : list (parameters, applications).  Every station keeps a log
+   (st_log: inputs, state before / after, outputs of every call); `transcript st` is the event list the
+   single-station check builds (Model/FdlOracle.v).
+   Schedule hypotheses: `sched_time_ok sc` - poll times in [0, 2^62) - for C05; `sched_ok (fun _ => 0) sc` -
+   per station the poll times are > 0, < 2^62 and strictly increasing (no relation between different
+   stations' clocks is asked for) - for the monitors.  `cfg_valid cfg`: every parameter set is one the builder
+   can produce.  apps_total / app_sends_data / app_sends_requests as in C05.v / C13.v / C12.v.
+   WHAT THIS GIVES: every station-local guarantee (C05; the station-local rule sets of C01 C06 C11 C12 C13
+   C15; the hold rule per visit) holds of every station of the composed system, for every N, medium and
+   schedule.  WHAT IT DOES NOT GIVE: the global halves - at most one token holder, no two transmissions
+   overlapping on the medium, rotation order and rotation time of the N-station ring; those remain with the
+   bus-level monitors above (tests) and the conditional theorems C01_compose / C13_rotation_bound_stations
+   (whose per-station hypothesis `station_history` is discharged by C13_multi_station_history below). *)
+From PB Require Import Fdl FdlOracle FdlProofs C05Proofs C01Proofs C06Proofs C13Proofs C15Proofs C13Visits.
+From PB Require Import FdlOracleSound1 FdlOracleSound5 FdlOracleSound11 Multi MultiProofs.
+
+(* (a) C05 for the composed system: it can be created and the run returns `Ok tt` - no station reaches a
+   panic site or exhausts a loop bound - and every station satisfies Rep afterwards. *)
+Theorem C05_multi_never_panics : forall (A : Type) (ops : app_ops A) (M : medium),
+  medium_bytes M -> apps_total A ops ->
+  forall (cfg : list (params * list A)) (sc : schedule), cfg_valid A cfg -> sched_time_ok sc ->
+  exists s0 s', multi_init A cfg = Ok s0 /\ multi_run A ops M s0 sc = (s', Ok tt) /\
+    forall i st, nth_error (sys_st s') i = Some st -> Rep (length (st_apps st)) (st_f st).
+Proof. exact multi_run_never_panics. Qed.
+Print Assumptions C05_multi_never_panics.
+
+(* (b) NO hypotheses: whatever the medium and the schedule do, and whether or not a call panics, the
+   transcript of station i of the composed system IS the single-station model transcript of the i-th
+   configured station under the inputs it was given (station_inputs: its API calls and, per poll, time,
+   busy flag and new bytes as supplied by the medium), and every poll record of its log is a poll of the
+   single-station model. *)
+Theorem Multi_station_transcripts : forall (A : Type) (ops : app_ops A) (M : medium)
+    (cfg : list (params * list A)) (s0 : sys A) (sc : schedule) (s' : sys A) (r : res unit),
+  multi_init A cfg = Ok s0 -> multi_run A ops M s0 sc = (s', r) ->
+  forall i st, nth_error (sys_st s') i = Some st ->
+  nth_error cfg i = Some (st_p st, st_apps0 st) /\
+  transcript st = model_transcript A ops (st_p st) (st_apps0 st) (station_inputs st) /\
+  Forall (rec_poll A ops) (st_log st) /\ fdl_new (st_p st) = Ok (st_f0 st).
+Proof. exact multi_run_station_transcripts. Qed.
+Print Assumptions Multi_station_transcripts.
+
+(* ... and these inputs are admissible in the sense of the single-station soundness theorems (ins_ok). *)
+Theorem Multi_station_inputs_ok : forall (A : Type) (ops : app_ops A) (M : medium), medium_bytes M ->
+  forall (cfg : list (params * list A)) (s0 : sys A) (sc : schedule) (s' : sys A) (r : res unit),
+  multi_init A cfg = Ok s0 -> sched_ok (fun _ => 0) sc -> multi_run A ops M s0 sc = (s', r) ->
+  forall i st, nth_error (sys_st s') i = Some st -> ins_ok 0 (station_inputs st).
+Proof. exact multi_run_station_inputs_ok. Qed.
+Print Assumptions Multi_station_inputs_ok.
+
+(* (c) The executable per-station monitors of Model/FdlOracle.v (all rules of C01 C05 C06 C11 C12 C13 C15)
+   report NOTHING on any station of the composed system. *)
+Theorem Multi_monitors_silent : forall (A : Type) (ops : app_ops A) (M : medium),
+  medium_bytes M -> apps_total A ops -> app_sends_data A ops ->
+  forall (cfg : list (params * list A)) (s0 : sys A) (sc : schedule) (s' : sys A) (r : res unit),
+  app_sends_requests A ops -> cfg_valid A cfg -> sched_ok (fun _ => 0) sc ->
+  multi_init A cfg = Ok s0 -> multi_run A ops M s0 sc = (s', r) ->
+  forall i st, nth_error (sys_st s') i = Some st ->
+  monitor (st_p st) (length (st_apps0 st)) (transcript st) = [].
+Proof. exact multi_monitors_silent. Qed.
+Print Assumptions Multi_monitors_silent.
+
+(* without app_sends_requests: nothing but rules of C12 (the status-reply rules) can be reported - in
+   particular no rule of C01, C06, C13 *)
+Theorem Multi_monitors_c01_c06_c13 : forall (A : Type) (ops : app_ops A) (M : medium),
+  medium_bytes M -> apps_total A ops -> app_sends_data A ops ->
+  forall (cfg : list (params * list A)) (s0 : sys A) (sc : schedule) (s' : sys A) (r : res unit),
+  cfg_valid A cfg -> sched_ok (fun _ => 0) sc ->
+  multi_init A cfg = Ok s0 -> multi_run A ops M s0 sc = (s', r) ->
+  forall i st, nth_error (sys_st s') i = Some st ->
+  forall k rl, In (k, rl) (monitor (st_p st) (length (st_apps0 st)) (transcript st)) -> rule_prop rl = PC12.
+Proof. exact multi_monitors_but_c12. Qed.
+Print Assumptions Multi_monitors_c01_c06_c13.
+
+(* with total applications only (they may put anything on the wire): no rule of C01, none of C05 *)
+Theorem Multi_monitors_c01_c05 : forall (A : Type) (ops : app_ops A) (M : medium),
+  medium_bytes M -> apps_total A ops ->
+  forall (cfg : list (params * list A)) (s0 : sys A) (sc : schedule) (s' : sys A) (r : res unit),
+  cfg_valid A cfg -> sched_ok (fun _ => 0) sc ->
+  multi_init A cfg = Ok s0 -> multi_run A ops M s0 sc = (s', r) ->
+  forall i st, nth_error (sys_st s') i = Some st ->
+  forall k rl, In (k, rl) (monitor (st_p st) (length (st_apps0 st)) (transcript st)) ->
+  rule_prop rl <> PC01 /\ rule_prop rl <> PC05.
+Proof. exact multi_monitors_c01_c05. Qed.
+Print Assumptions Multi_monitors_c01_c05.
+
+(* (d) C01, station-local half, per poll of the composed system.  NO hypotheses: a station hands something
+   to its PHY only in a poll in which the medium reported its transmitter idle and in which its
+   last_bus_activity (latest RX growth, received telegram, or predicted end of its own transmission it has
+   recorded) is more than 33 bit times in the past. *)
+Theorem C01_multi_sync_pause : forall (A : Type) (ops : app_ops A) (M : medium)
+    (cfg : list (params * list A)) (s0 : sys A) (sc : schedule) (s' : sys A) (r : res unit),
+  multi_init A cfg = Ok s0 -> multi_run A ops M s0 sc = (s', r) ->
+  forall i st, nth_error (sys_st s') i = Some st ->
+  forall now busy nb rxb f f' o calls wire,
+  In (SPoll now busy nb rxb f f' o calls) (st_log st) -> tx o = Some wire ->
+  busy = false /\ exists l, f_lba f = Some l /\ l + p_bits_to_time (f_p f) sync_pause_bits < now.
+Proof. exact multi_c01_sync_pause. Qed.
+Print Assumptions C01_multi_sync_pause.
+
+(* ... and (hypotheses of C05_multi_never_panics) the station is then entitled in its own view:
+   `may_transmit` is the disjunction of C01_who_may_transmit. *)
+Theorem C01_multi_who_may_transmit : forall (A : Type) (ops : app_ops A) (M : medium)
+    (cfg : list (params * list A)) (s0 : sys A) (sc : schedule) (s' : sys A) (r : res unit),
+  medium_bytes M -> apps_total A ops -> cfg_valid A cfg -> sched_time_ok sc ->
+  multi_init A cfg = Ok s0 -> multi_run A ops M s0 sc = (s', r) ->
+  forall i st, nth_error (sys_st s') i = Some st ->
+  forall now busy nb rxb f f' o calls wire,
+  In (SPoll now busy nb rxb f f' o calls) (st_log st) -> tx o = Some wire ->
+  f_p f = st_p st /\ may_transmit f now.
+Proof. exact multi_c01_who_may_transmit. Qed.
+Print Assumptions C01_multi_who_may_transmit.
+
+(* (d) C13, station-local half.  NO hypotheses: the hold rule per poll (C13_hold_rule_poll). *)
+Theorem C13_multi_hold_rule : forall (A : Type) (ops : app_ops A) (M : medium)
+    (cfg : list (params * list A)) (s0 : sys A) (sc : schedule) (s' : sys A) (r : res unit),
+  multi_init A cfg = Ok s0 -> multi_run A ops M s0 sc = (s', r) ->
+  forall i st, nth_error (sys_st s') i = Some st ->
+  forall now busy nb rxb f f' o calls,
+  In (SPoll now busy nb rxb f f' o calls) (st_log st) ->
+  exists hp, Forall (prio_of hp) calls /\
+    (asks calls ->
+     if hp then (exists tk fa, f_state f = UseToken tk fa false) /\ f_end_tht f' <= now
+     else now < f_end_tht f').
+Proof. exact multi_c13_hold_rule. Qed.
+Print Assumptions C13_multi_hold_rule.
+
+(* The history of every station of a composed run that returned (station_hitems: callbacks and state after
+   each poll, HReset per set_offline, read off the log) is a `station_history` - the per-station
+   hypothesis of C13_rotation_bound_stations is discharged by the composed model ... *)
+Theorem C13_multi_station_history : forall (A : Type) (ops : app_ops A) (M : medium)
+    (cfg : list (params * list A)) (s0 : sys A) (sc : schedule) (s' : sys A),
+  medium_bytes M -> sched_ok (fun _ => 0) sc ->
+  multi_init A cfg = Ok s0 -> multi_run A ops M s0 sc = (s', Ok tt) ->
+  forall i st, nth_error (sys_st s') i = Some st ->
+  C15Proofs.run A ops (st_f0 st) (st_apps0 st) (station_events A st) = Ok (st_f st, st_apps st, station_hitems A st) /\
+  station_history (st_p st) (station_hitems A st).
+Proof. exact multi_c13_station_history. Qed.
+Print Assumptions C13_multi_station_history.
+
+(* ... and every token visit of every station obeys the hold rule (sv_ok: C13_station_visits_ok), consecutive
+   visits are linked (C13_visits_linked). *)
+Theorem C13_multi_visits_ok : forall (A : Type) (ops : app_ops A) (M : medium)
+    (cfg : list (params * list A)) (s0 : sys A) (sc : schedule) (s' : sys A),
+  medium_bytes M -> cfg_valid A cfg -> sched_ok (fun _ => 0) sc ->
+  multi_init A cfg = Ok s0 -> multi_run A ops M s0 sc = (s', Ok tt) ->
+  forall i st, nth_error (sys_st s') i = Some st ->
+  Forall (sv_ok (token_rotation_time (st_p st))) (visits_of (station_hitems A st)) /\
+  linked (visits_of (station_hitems A st)).
+Proof. exact multi_c13_visits_ok. Qed.
+Print Assumptions C13_multi_visits_ok.
+
+(* (d) C06, station-local half: a station of the composed system enters ClaimToken only after its own
+   time-out of silence (6 + 2 TS) Tslot, with no new receive bytes in that poll ... *)
+Theorem C06_multi_claim_needs_silence : forall (A : Type) (ops : app_ops A) (M : medium)
+    (cfg : list (params * list A)) (s0 : sys A) (sc : schedule) (s' : sys A) (r : res unit),
+  medium_bytes M -> apps_total A ops -> cfg_valid A cfg -> sched_time_ok sc ->
+  multi_init A cfg = Ok s0 -> multi_run A ops M s0 sc = (s', r) ->
+  forall i st, nth_error (sys_st s') i = Some st ->
+  forall now busy nb rxb f f' o calls,
+  In (SPoll now busy nb rxb f f' o calls) (st_log st) ->
+  kind_of (f_state f) <> KClaimToken -> kind_of (f_state f') = KClaimToken ->
+  (length rxb <= f_pending f)%nat /\
+  exists l, f_lba f = Some l /\ l < now /\ token_lost_timeout (st_p st) <= now - l.
+Proof. exact multi_c06_claim_needs_silence. Qed.
+Print Assumptions C06_multi_claim_needs_silence.
+
+(* ... and (NO hypotheses) a station waiting for an answer that finds any other complete telegram - e.g.
+   another station's token - gives the token up in that poll (C06_backoff). *)
+Theorem C06_multi_backoff : forall (A : Type) (ops : app_ops A) (M : medium)
+    (cfg : list (params * list A)) (s0 : sys A) (sc : schedule) (s' : sys A) (r : res unit),
+  multi_init A cfg = Ok s0 -> multi_run A ops M s0 sc = (s', r) ->
+  forall i st, nth_error (sys_st s') i = Some st ->
+  forall now busy nb rxb f f' o calls t n,
+  In (SPoll now busy nb rxb f f' o calls) (st_log st) ->
+  unexpected_for f t -> busy = false -> C11Proofs.predicted f now = false ->
+  DecodeSpec.decode_spec rxb = Accept t n ->
+  f_state f' = ActiveIdle None None 0 /\ o = mkPhyOut None (skipn n rxb) /\ calls = [] /\ f_ring f' = f_ring f.
+Proof. exact multi_c06_backoff. Qed.
+Print Assumptions C06_multi_backoff.
+
+(* non-vacuity: the concrete medium `ideal_medium rate` (byte timing of harness/src/bus.rs) delivers octets;
+   the two-station example of Model/Multi.v (Multi.ex2_token_exchange: the stations exchange the token;
+   Multi.ex2_monitors_silent: the executable monitors accept both transcripts) satisfies every hypothesis. *)
+Theorem Multi_ideal_medium_bytes : forall rate : Z, medium_bytes (ideal_medium rate).
+Proof. exact ideal_medium_bytes. Qed.
+Print Assumptions Multi_ideal_medium_bytes.
+
+Example Multi_hypotheses_satisfiable :
+  cfg_valid unit ex2_cfg /\ sched_ok (fun _ => 0) (ex2_schedule 300) /\ apps_total unit unit_app_ops /\
+  medium_bytes (ideal_medium 500000).
+Proof. exact ex2_hypotheses. Qed.
+
+(* ------------------------------------------------------------------------------------ STRETCH *)
+(* A GLOBAL fact, on the concrete medium ideal_medium (Proofs/MultiHandover.v): token hand-over between
+   two stations ia, ib of a composed system of any size.  Multi_ideal_delivers_rest: the medium's answer
+   in the situation "last transmission on the medium is w by ia at t0, everything earlier was delivered to
+   ib by its previous poll at tp, nobody transmitted since, w is complete at t1".
+   Multi_handover_step_partial: ia has transmitted the token telegram to ib and supervises its pass
+   (CheckTokenPass - not a token holder in its own view); ib idles in the ring (ActiveIdle, no status request
+   pending) with ia as registered predecessor and the already arrived part of the telegram in its buffer.
+   Then ib's poll at a time t1 at which the telegram is complete returns, transmits nothing, makes ib the
+   token holder in its own view (UseToken t1) and leaves ia as it was: after the step exactly one of the two
+   holds the token.
+   PARTIAL: one global step, not an invariant.  Missing towards token uniqueness (at most one station with
+   have_token in every reachable state): an inductive invariant tying all stations' views to the medium's
+   history (through claims, GAP polls, retries, removals; a receiver that is itself still in CheckTokenPass,
+   as in a two-station ring, is handled by the code but not by this lemma), under assumptions that make it
+   true - loss-free medium, poll period small against Tslot, distinct addresses (cf. known classes F20 / F21). *)
+From PB Require Import MultiHandover.
+
+Theorem Multi_ideal_delivers_rest : forall (rate : Z) (h0 h1 : history) (ia ib : nat) (t0 tp t1 : Z) (w : bytes),
+  ia <> ib -> all_bytes w ->
+  last_poll (h0 ++ mkH ia t0 (Some w) :: h1) ib = Some tp ->
+  Forall (fun x => h_tx x = None) h1 ->
+  bytes_by rate t0 (length w) t1 = length w ->
+  (forall x w', In x h0 -> h_who x <> ib -> h_tx x = Some w' -> bytes_by rate (h_now x) (length w') tp = length w') ->
+  (forall x w', In x h0 -> h_who x = ib -> h_tx x = Some w' -> tx_end rate (h_now x) (length w') <= t1) ->
+  ideal_medium rate (h0 ++ mkH ia t0 (Some w) :: h1) ib t1 = (skipn (bytes_by rate t0 (length w) tp) w, false).
+Proof. exact ideal_delivers_rest. Qed.
+Print Assumptions Multi_ideal_delivers_rest.
+
+Theorem Multi_handover_step_partial : forall (A : Type) (ops : app_ops A), apps_total A ops ->
+  forall (rate : Z) (s : sys A) (ia ib : nat) (sta stb : station A) (h0 h1 : history) (t0 tp t1 : Z)
+         (nps : option Z) (cc : Z) (s' : sys A) (r : res unit),
+  let fa := st_f sta in let fb := st_f stb in
+  ia <> ib -> nth_error (sys_st s) ia = Some sta -> nth_error (sys_st s) ib = Some stb ->
+  sys_hist s = h0 ++ mkH ia t0 (Some (encode_token (ts fb) (ts fa))) :: h1 -> Forall (fun x => h_tx x = None) h1 ->
+  kind_of (f_state fa) = KCheckTokenPass -> Rep (length (st_apps sta)) fa ->
+  Rep (length (st_apps stb)) fb -> f_conn fb = ConnOnline -> f_state fb = ActiveIdle None nps cc ->
+  r_ps (f_ring fb) = ts fa -> ts fa <> ts fb ->
+  st_buf stb = firstn (bytes_by rate t0 3 tp) (encode_token (ts fb) (ts fa)) -> (f_pending fb < 3)%nat ->
+  (forall l, f_lba fb = Some l -> l < t1) -> time_ok t1 ->
+  last_poll (sys_hist s) ib = Some tp -> bytes_by rate t0 3 t1 = 3%nat ->
+  (forall x w', In x h0 -> h_who x <> ib -> h_tx x = Some w' -> bytes_by rate (h_now x) (length w') tp = length w') ->
+  (forall x w', In x h0 -> h_who x = ib -> h_tx x = Some w' -> tx_end rate (h_now x) (length w') <= t1) ->
+  multi_step A ops (ideal_medium rate) s (ib, ActPoll t1) = (s', r) ->
+  r = Ok tt /\
+  nth_error (sys_st s') ia = Some sta /\ have_token (f_state (st_f sta)) = false /\
+  exists stb', nth_error (sys_st s') ib = Some stb' /\
+    f_state (st_f stb') = UseToken t1 None false /\ have_token (f_state (st_f stb')) = true /\
+    st_buf stb' = [] /\ sys_hist s' = sys_hist s ++ [mkH ib t1 None] /\
+    exists f0, In (SPoll t1 false (skipn (bytes_by rate t0 3 tp) (encode_token (ts fb) (ts fa)))
+                         (encode_token (ts fb) (ts fa)) fb f0 (mkPhyOut None []) []) (st_log stb').
+Proof. exact handover_step_partial. Qed.
+Print Assumptions Multi_handover_step_partial.
+
+(* non-vacuity of Multi_handover_step_partial: the two-station example run of Model/Multi.v (ideal medium,
+   500 kbit/s) is, after 163 polls, in a state satisfying every hypothesis - station 1 (index 0) handed the
+   token telegram to its PHY at t0 = 6440 us; index 1 polled at tp = 6480 and found the first byte [220];
+   index 0 polled at 6520; at t1 = 6560 the telegram is complete. *)
+Example Multi_handover_hypotheses_satisfiable :
+  exists sta stb h0 h1,
+    let fa := st_f sta in let fb := st_f stb in
+    nth_error (sys_st ex2_s163) 0 = Some sta /\ nth_error (sys_st ex2_s163) 1 = Some stb /\
+    sys_hist ex2_s163 = h0 ++ mkH 0 6440 (Some (encode_token (ts fb) (ts fa))) :: h1 /\
+    Forall (fun x => h_tx x = None) h1 /\
+    kind_of (f_state fa) = KCheckTokenPass /\ Rep (length (st_apps sta)) fa /\
+    Rep (length (st_apps stb)) fb /\ f_conn fb = ConnOnline /\ f_state fb = ActiveIdle None None 0 /\
+    r_ps (f_ring fb) = ts fa /\ ts fa <> ts fb /\
+    st_buf stb = firstn (bytes_by 500000 6440 3 6480) (encode_token (ts fb) (ts fa)) /\ st_buf stb = [220] /\
+    (f_pending fb < 3)%nat /\ (forall l, f_lba fb = Some l -> l < 6560) /\ time_ok 6560 /\
+    last_poll (sys_hist ex2_s163) 1 = Some 6480 /\ bytes_by 500000 6440 3 6560 = 3%nat /\
+    (forall x w', In x h0 -> h_who x <> 1%nat -> h_tx x = Some w' -> bytes_by 500000 (h_now x) (length w') 6480 = length w') /\
+    (forall x w', In x h0 -> h_who x = 1%nat -> h_tx x = Some w' -> tx_end 500000 (h_now x) (length w') <= 6560).
+Proof. exact ex2_handover_hypotheses. Qed.
